@@ -73,6 +73,7 @@ func genGateFacts() (string, error) {
 		{"lib/consensus.go", "View", "Check", "viewCheck"},
 		{"lib/block.go", "Block", "Check", "blockCheck"},
 		{"lib/block.go", "BlockHeader", "Check", "blockHeaderCheck"},
+		{"lib/certificate.go", "CertificateResult", "Hash", "certResultHash"},
 	} {
 		lines, err := normFunc(fn.file, fn.recv, fn.name)
 		if err != nil {
